@@ -751,7 +751,7 @@ FUNCS.append(
                      ("out_io.write(output_line)", "!pure (output_line, logs)")],
          expr_rules=[("anonymize_ip_addr(self_anonymizer6, A, self.undo_ip_anon)", "(← Py.ipStage6S self_anonymizer6 p.undo {A})"),
                      ("anonymize_ip_addr(self_anonymizer4, A, self.undo_ip_anon)", "(← Py.ipStage4S self_anonymizer4 p.undo {A})"),
-                     ("A.anonymize(B)", "(← Py.resS (Words.anonymize p.wenv {A} {B}))"),
+                     ("A.anonymize(B)", "(← Py.resS (words_anonymize p.wenv {A} {B}))"),
                      ("anonymize_as_numbers(A, B)", "(← Py.resS (AsNum.anonymize {A} {B}))")]))
 
 FUNCS.append(
@@ -775,8 +775,8 @@ GROUPS = {
                   funcs=["generate_as_number_replacement"]),
     "SrcLines": dict(imports=["Netconan.Model.Py", "Netconan.Model.Lines"], serves=["C12", "C13", "C14", "C15"], funcs=["line_step"]),
     "SrcJun": dict(imports=["Netconan.Model.Py", "Netconan.Model.Juniper"], serves=["C18"], funcs=["gap_encode", "gap", "fixedc"]),
-    "SrcFull": dict(imports=["Netconan.Model.PyFull"], serves=["C12", "C13", "C14", "C15"], funcs=["line_step_full"]),
-    "SrcWords": dict(imports=["Netconan.Model.PyWords"], serves=["C10"], funcs=["words_anonymize"]),
+    "SrcFull": dict(imports=["Netconan.Model.PyFull", "Netconan.Generated.SrcWords"], serves=["C12", "C13", "C14", "C15"], funcs=["line_step_full"]),
+    "SrcWords": dict(imports=["Netconan.Model.PyWords"], serves=["C10", "C12", "C13", "C14", "C15"], funcs=["words_anonymize"]),
     "SrcCli": dict(imports=["Netconan.Model.Py", "Netconan.Model.Cli"], serves=["C19"], funcs=["main"]),
 }
 
